@@ -5,6 +5,7 @@ pub mod io {
     #[allow(async_fn_in_trait)]
     pub trait AsyncReadExt {
         async fn read_exact(&mut self, buf: &mut [u8]) -> io::Result<usize>;
+        async fn read(&mut self, buf: &mut [u8]) -> io::Result<usize>;
     }
     #[allow(async_fn_in_trait)]
     pub trait AsyncWriteExt {
@@ -19,10 +20,12 @@ pub mod net {
         pub pos: usize,
         pub output: Arc<Mutex<Vec<u8>>>,
         pub reads: Arc<Mutex<Vec<(usize, usize)>>>,
+        /// stream offsets at which a TCP segment ends: `read` never returns bytes across such a boundary
+        pub segments: Vec<usize>,
     }
     impl TcpStream {
         pub fn from_bytes(input: Vec<u8>) -> Self {
-            TcpStream { input, pos: 0, output: Arc::new(Mutex::new(Vec::new())), reads: Arc::new(Mutex::new(Vec::new())) }
+            TcpStream { input, pos: 0, output: Arc::new(Mutex::new(Vec::new())), reads: Arc::new(Mutex::new(Vec::new())), segments: Vec::new() }
         }
     }
     impl crate::io::AsyncReadExt for TcpStream {
@@ -35,6 +38,14 @@ pub mod net {
             buf.copy_from_slice(&self.input[self.pos..self.pos + buf.len()]);
             self.pos += buf.len();
             Ok(buf.len())
+        }
+        async fn read(&mut self, buf: &mut [u8]) -> io::Result<usize> {
+            let seg_end = self.segments.iter().copied().filter(|e| *e > self.pos).min().unwrap_or(self.input.len()).min(self.input.len());
+            let n = buf.len().min(seg_end - self.pos);
+            self.reads.lock().unwrap().push((self.pos, n));
+            buf[..n].copy_from_slice(&self.input[self.pos..self.pos + n]);
+            self.pos += n;
+            Ok(n)
         }
     }
     impl crate::io::AsyncWriteExt for TcpStream {
